@@ -197,7 +197,17 @@ def unit_init(prop):
         from contracts.registry import run_parallel
         from contracts import standardize_save
         jobs = [("contracts.standardize_init", "generate", (prop, i)) for i in range(len(cases()))]
-        tc = getattr(standardize_save, "to_case", None)
+        def tc(ob):
+            """the C17 stand-in's own cases (every target kind, reload through Standardize(rfilename=...), the raw-binary ones - which take the
+            dtype-probing route - first)"""
+            try:
+                from rtc import c17
+                cs = list(c17.enumerate_cases("quick", 0))
+            except Exception:
+                return None
+            raw = [c for c in cs if "raw" in str(c.get("target", "")) or "bin" in str(c.get("target", ""))]
+            rest = [c for c in cs if c not in raw]
+            return raw[:200] + rest[:200]
         if prop == "C16":
             from contracts import standardize
             return run_parallel("standardize_init", jobs, to_case=standardize.to_case, replay_module="rtc.c16")
